@@ -2,7 +2,7 @@
 # tools/runall.sh [tier] [seed] — run every registered check once on the current /repo, report exit code and wall time
 cd "$(dirname "$0")/.."
 tier="${1:-quick}"; seed="${2:-0}"
-for p in C01 C02 C03 C04 C05 C06 C07 C08 C09 C10 C11 C12 C13 C14 C15 C16 C17 C18 C19 C20; do
+for p in ${PROPS:-C01 C02 C03 C04 C05 C06 C07 C08 C09 C10 C11 C12 C13 C14 C15 C16 C17 C18 C19 C20}; do
   t0=$(date +%s)
   ./check $p --tier $tier --seed $seed > /var/tmp/runall-$p.log 2>&1; rc=$?
   t1=$(date +%s)
